@@ -660,6 +660,118 @@ theorem roundPos_exact (f : Fmt) (hp : 1 ≤ f.p) (hem : 1 ≤ f.emax) (s : Bool
     simp only [this, if_false]
   · rw [← hKx]; field_simp
 
+/-- An integer within `1/2 + 1/4` of... : if `|r - y| ≤ 1/2` and `|y - m| < 1/2` for naturals `r`, `m`,
+then `r = m`. -/
+theorem nat_eq_of_close (r m : Nat) (y : ℝ) (h1 : |(r : ℝ) - y| ≤ 1 / 2) (h2 : |y - (m : ℝ)| < 1 / 2) :
+    r = m := by
+  have h1' := abs_le.mp h1
+  have h2' := abs_lt.mp h2
+  have a : (r : ℝ) < (m : ℝ) + 1 := by linarith [h1'.2, h2'.2]
+  have b : (m : ℝ) < (r : ℝ) + 1 := by linarith [h1'.1, h2'.1]
+  have a' : r < m + 1 := by exact_mod_cast a
+  have b' : m < r + 1 := by exact_mod_cast b
+  omega
+
+/-- **Rounding recovers a nearby normal number.** If `(m, q)` is a canonical *normal* number and the
+positive rational `y = n/d` is within a quarter of its quantum, then `y` rounds to `(m, q)`. (A quarter,
+not a half, because below a power of two the spacing halves.) -/
+theorem roundPos_near (f : Fmt) (hp : 1 ≤ f.p) (s : Bool) (n d : Nat) (hn : 0 < n) (hd : 0 < d)
+    (m : Nat) (q : Int) (hc : Canonical f (fin s m q)) (hnorm : 2 ^ (f.p - 1) ≤ m)
+    (hy : |(n : ℝ) / d - (m : ℝ) * (2 : ℝ) ^ q| < (2 : ℝ) ^ q / 4) :
+    roundPos f s n d = fin s m q := by
+  obtain ⟨hlt, hqmin, _, hmax⟩ := hc
+  have two : (1 : ℝ) < 2 := by norm_num
+  have two0 : (2 : ℝ) ≠ 0 := by norm_num
+  have h2q : (0 : ℝ) < (2 : ℝ) ^ q := by positivity
+  set y : ℝ := (n : ℝ) / d with hydef
+  obtain ⟨ylo, yhi⟩ := abs_lt.mp hy
+  have hltR : (m : ℝ) + 1 ≤ (2 : ℝ) ^ (f.p : Int) := by
+    rw [zpow_natCast]; exact_mod_cast hlt
+  have hnormR : (2 : ℝ) ^ ((f.p : Int) - 1) ≤ (m : ℝ) := by
+    have : ((f.p : Int) - 1) = ((f.p - 1 : Nat) : Int) := by omega
+    rw [this, zpow_natCast]; exact_mod_cast hnorm
+  have hsplit : (2 : ℝ) ^ ((f.p : Int) - 1 + q) = (2 : ℝ) ^ ((f.p : Int) - 1) * (2 : ℝ) ^ q := zpow_add₀ two0 _ _
+  have hsplit2 : (2 : ℝ) ^ ((f.p : Int) + q) = (2 : ℝ) ^ (f.p : Int) * (2 : ℝ) ^ q := zpow_add₀ two0 _ _
+  -- y / 2^q is within 1/4 of m
+  have hyq : |y / (2 : ℝ) ^ q - (m : ℝ)| < 1 / 4 := by
+    have : y / (2 : ℝ) ^ q - (m : ℝ) = (y - (m : ℝ) * (2 : ℝ) ^ q) / (2 : ℝ) ^ q := by field_simp
+    rw [this, abs_div, abs_of_pos h2q, div_lt_iff₀ h2q]
+    calc |y - (m : ℝ) * (2 : ℝ) ^ q| < (2 : ℝ) ^ q / 4 := hy
+      _ = 1 / 4 * (2 : ℝ) ^ q := by ring
+  have yupper : y < (2 : ℝ) ^ ((f.p : Int) + q) := by
+    rw [hsplit2]; nlinarith
+  -- finishing step shared by the cases where the quantum is `q`
+  have finish_q : quantum f n d = q → roundPos f s n d = fin s m q := by
+    intro hquant
+    have hsig : sigAt q n d = m :=
+      nat_eq_of_close _ _ _ (sigAt_spec q n d hd) (lt_trans hyq (by norm_num))
+    unfold roundPos
+    simp only [hquant, hsig]
+    have hne : m ≠ 2 ^ f.p := by omega
+    have : ¬ ((f.emax : Int) < q + ((f.p : Int) - 1)) := by omega
+    simp only [hne, this, if_false]
+  by_cases hA : (2 : ℝ) ^ ((f.p : Int) - 1 + q) ≤ y
+  · -- same binade
+    have hk : ilog2Q n d = (f.p : Int) - 1 + q := by
+      apply ilog2Q_unique n d hn hd _ hA
+      rw [show (f.p : Int) - 1 + q + 1 = (f.p : Int) + q by ring]; exact yupper
+    apply finish_q
+    unfold quantum
+    rw [hk, show (f.p : Int) - 1 + q - ((f.p : Int) - 1) = q by ring]
+    exact max_eq_left hqmin
+  · -- y fell just below the power of two `2^(p-1+q)`: then m = 2^(p-1)
+    have hA' : y < (2 : ℝ) ^ ((f.p : Int) - 1 + q) := not_le.mp hA
+    have hm : m = 2 ^ (f.p - 1) := by
+      by_contra hne
+      have : 2 ^ (f.p - 1) + 1 ≤ m := by omega
+      have hR : (2 : ℝ) ^ ((f.p : Int) - 1) + 1 ≤ (m : ℝ) := by
+        have e : ((f.p : Int) - 1) = ((f.p - 1 : Nat) : Int) := by omega
+        rw [e, zpow_natCast]; exact_mod_cast this
+      rw [hsplit] at hA'
+      nlinarith
+    have hmR : (m : ℝ) = (2 : ℝ) ^ ((f.p : Int) - 1) := by
+      have e : ((f.p : Int) - 1) = ((f.p - 1 : Nat) : Int) := by omega
+      rw [hm, e, zpow_natCast]; push_cast; rfl
+    have hquarter : (1 : ℝ) / 2 ≤ (2 : ℝ) ^ ((f.p : Int) - 1) := by
+      have : (2 : ℝ) ^ (-1 : Int) ≤ (2 : ℝ) ^ ((f.p : Int) - 1) := (zpow_le_zpow_iff_right₀ two).mpr (by omega)
+      simpa using this
+    have hlow : (2 : ℝ) ^ ((f.p : Int) - 2 + q) ≤ y := by
+      have e : (2 : ℝ) ^ ((f.p : Int) - 2 + q) = (2 : ℝ) ^ ((f.p : Int) - 1) / 2 * (2 : ℝ) ^ q := by
+        rw [show (f.p : Int) - 2 + q = ((f.p : Int) - 1) + (-1) + q by ring, zpow_add₀ two0, zpow_add₀ two0,
+          zpow_neg_one]
+        ring
+      rw [e]
+      have : y > ((2 : ℝ) ^ ((f.p : Int) - 1) - 1 / 4) * (2 : ℝ) ^ q := by rw [← hmR]; nlinarith
+      nlinarith
+    have hk : ilog2Q n d = (f.p : Int) - 2 + q := by
+      apply ilog2Q_unique n d hn hd _ hlow
+      rw [show (f.p : Int) - 2 + q + 1 = (f.p : Int) - 1 + q by ring]; exact hA'
+    by_cases hqq : q = f.qmin
+    · apply finish_q
+      unfold quantum
+      rw [hk, hqq]
+      exact max_eq_right (by omega)
+    · have hquant : quantum f n d = q - 1 := by
+        unfold quantum
+        rw [hk, show (f.p : Int) - 2 + q - ((f.p : Int) - 1) = q - 1 by ring]
+        exact max_eq_left (by omega)
+      have h2q1 : (2 : ℝ) ^ (q - 1) = (2 : ℝ) ^ q / 2 := by
+        rw [zpow_sub₀ two0]; simp
+      have hsig : sigAt (q - 1) n d = 2 * m := by
+        apply nat_eq_of_close _ _ _ (sigAt_spec (q - 1) n d hd)
+        have : y / (2 : ℝ) ^ (q - 1) - ((2 * m : Nat) : ℝ) = 2 * (y / (2 : ℝ) ^ q - (m : ℝ)) := by
+          rw [h2q1]; push_cast; field_simp
+        rw [← hydef, this, abs_mul, abs_of_pos (by norm_num : (0 : ℝ) < 2)]
+        linarith
+      have h2m : 2 * m = 2 ^ f.p := by
+        rw [hm, ← pow_succ']; congr 1; omega
+      unfold roundPos
+      simp only [hquant, hsig, h2m, if_true]
+      have : ¬ ((f.emax : Int) < q - 1 + 1 + ((f.p : Int) - 1)) := by omega
+      simp only [this, if_false]
+      rw [hm]
+      congr 1; ring
+
 /-- The real value of `roundE`'s argument as a quotient. -/
 theorem roundE_eq_roundPos (f : Fmt) (s : Bool) (n : Nat) (e : Int) (hn : 0 < n) :
     ∃ N D : Nat, 0 < N ∧ 0 < D ∧ roundE f s n e = roundPos f s N D ∧
